@@ -138,7 +138,8 @@ func (b *batch) get(key []byte) []byte {
 	if ok {
 		return v.val
 	}
-	val, _ := b.store.Get(context.Background(), key)
+	// the lock is held by batch
+	val, _ := b.store.get(key)
 	return val
 }
 
